@@ -1161,3 +1161,233 @@ func (c *Ctx) singleCallArg(p *ssa.Parameter, depth int) (string, bool) {
 	}
 	return first, true
 }
+
+// T-BUF: the lexer's scratch buffer. A field of type bytes.Buffer /
+// strings.Builder in the Lexer accumulates the text of one token; the next
+// token that uses it must start from an empty buffer, or it denotes the
+// concatenation of both. Typestate per lexer method, two states {clean, dirty}:
+//   entry: clean (inductive invariant);  Write*: dirty;  Reset: clean;
+//   a call of another lexer method that uses the buffer needs clean and leaves clean;
+//   every return that is not a failure (non-nil error => lexing stops, E-DISC) needs clean.
+// Base case: tokenize runs on a fresh Lexer (H-RESET's lexer-fresh) or resets
+// the buffer before anything else touches it.
+func init() { register("T-BUF", ruleScratchBuffer) }
+
+func ruleScratchBuffer(c *Ctx) *RuleResult {
+	r := &RuleResult{Doc: "the lexer's scratch buffer is empty whenever a scanner starts: every lexer method that writes it resets it on every path to a non-failing return, and tokenize starts from a fresh lexer or a reset buffer", Floor: 1}
+	st := c.A.LexerT.Underlying().(*types.Struct)
+	isBufType := func(t types.Type) bool {
+		n, ok := t.(*types.Named)
+		if !ok || n.Obj().Pkg() == nil {
+			return false
+		}
+		q := n.Obj().Pkg().Path() + "." + n.Obj().Name()
+		return q == "bytes.Buffer" || q == "strings.Builder"
+	}
+	var bufFields []int
+	for i := 0; i < st.NumFields(); i++ {
+		if isBufType(st.Field(i).Type()) {
+			bufFields = append(bufFields, i)
+		}
+	}
+	if len(bufFields) == 0 {
+		r.Instances++
+		r.ok("no-scratch-buffer", c.pos(c.A.Tokenize.Pos()), "", "the Lexer has no accumulating buffer field: nothing can leak from one token into the next")
+		return r
+	}
+	isLexerMethod := func(f *ssa.Function) bool {
+		if f == nil || f.Signature.Recv() == nil || f.Blocks == nil {
+			return false
+		}
+		pt, ok := f.Signature.Recv().Type().(*types.Pointer)
+		return ok && types.Identical(pt.Elem(), c.A.LexerT)
+	}
+	for _, fi := range bufFields {
+		fieldN := st.Field(fi).Name()
+		// classification of an instruction w.r.t. the buffer
+		const (
+			opNone = iota
+			opWrite
+			opReset
+			opRead
+		)
+		bufOp := func(fn *ssa.Function, in ssa.Instruction) int {
+			call, ok := in.(*ssa.Call)
+			if !ok {
+				return opNone
+			}
+			sc := staticCallee(call)
+			if sc == nil || sc.Signature.Recv() == nil || len(call.Call.Args) == 0 {
+				return opNone
+			}
+			fa, ok := call.Call.Args[0].(*ssa.FieldAddr)
+			if !ok || fa.Field != fi || fa.X != fn.Params[0] {
+				return opNone
+			}
+			switch {
+			case sc.Name() == "Reset":
+				return opReset
+			case strings.HasPrefix(sc.Name(), "Write") || sc.Name() == "ReadFrom":
+				return opWrite
+			case sc.Name() == "Truncate":
+				if k, ok := constInt(call.Call.Args[1]); ok && k == 0 {
+					return opReset
+				}
+				return opWrite
+			}
+			return opRead
+		}
+		// any other use of the field's address (passed on, stored): not decidable
+		users := map[*ssa.Function]bool{} // lexer methods that touch the buffer directly
+		escapes := ""
+		for _, fn := range allFuncs(c.SLib) {
+			for _, b := range fn.Blocks {
+				for _, in := range b.Instrs {
+					fa, ok := in.(*ssa.FieldAddr)
+					if !ok || fa.Field != fi {
+						continue
+					}
+					if pt, ok := fa.X.Type().Underlying().(*types.Pointer); !ok || !types.Identical(pt.Elem(), c.A.LexerT) {
+						continue
+					}
+					if !isLexerMethod(fn) || fa.X != fn.Params[0] {
+						escapes = c.pos(fa.Pos())
+						continue
+					}
+					users[fn] = true
+					for _, rf := range *fa.Referrers() {
+						if call, ok := rf.(*ssa.Call); ok && len(call.Call.Args) > 0 && call.Call.Args[0] == fa && staticCallee(call) != nil && staticCallee(call).Signature.Recv() != nil {
+							continue
+						}
+						escapes = c.pos(fa.Pos())
+					}
+				}
+			}
+		}
+		if escapes != "" {
+			r.Instances++
+			r.undecided("buf|"+fieldN+"|escapes", escapes, "", "the scratch buffer's address is used other than as the receiver of one of its methods inside a lexer method: typestate not decidable")
+			continue
+		}
+		// transitive users: methods that call a user on the same receiver
+		uses := map[*ssa.Function]bool{}
+		for f := range users {
+			uses[f] = true
+		}
+		for changed := true; changed; {
+			changed = false
+			for _, fn := range allFuncs(c.SLib) {
+				if !isLexerMethod(fn) || uses[fn] {
+					continue
+				}
+				for _, b := range fn.Blocks {
+					for _, in := range b.Instrs {
+						if call, ok := in.(*ssa.Call); ok {
+							if sc := staticCallee(call); isLexerMethod(sc) && uses[sc] && len(call.Call.Args) > 0 && call.Call.Args[0] == fn.Params[0] {
+								uses[fn] = true
+								changed = true
+							}
+						}
+					}
+				}
+			}
+		}
+		var fns []*ssa.Function
+		for f := range uses {
+			fns = append(fns, f)
+		}
+		sort.Slice(fns, func(i, j int) bool { return fns[i].Pos() < fns[j].Pos() })
+		for _, fn := range fns {
+			r.Instances++
+			key := "buf|" + fieldN + "|" + fname(fn)
+			// forward may-dirty analysis
+			dirtyIn := map[*ssa.BasicBlock]bool{}
+			reached := map[*ssa.BasicBlock]bool{fn.Blocks[0]: true}
+			work := []*ssa.BasicBlock{fn.Blocks[0]}
+			problem := ""
+			// tokenize may reset first (base case) — then its entry state does not matter
+			for len(work) > 0 {
+				b := work[len(work)-1]
+				work = work[:len(work)-1]
+				dirty := dirtyIn[b]
+				for _, in := range b.Instrs {
+					switch bufOp(fn, in) {
+					case opWrite:
+						dirty = true
+					case opReset:
+						dirty = false
+					}
+					if call, ok := in.(*ssa.Call); ok {
+						if sc := staticCallee(call); isLexerMethod(sc) && uses[sc] && sc != fn && len(call.Call.Args) > 0 && call.Call.Args[0] == fn.Params[0] {
+							if dirty && problem == "" {
+								problem = "calls " + sc.Name() + " at " + c.pos(call.Pos()) + " while the buffer may hold text of the current token"
+							}
+						}
+					}
+					if ret, ok := in.(*ssa.Return); ok && dirty {
+						errSlot := errIndex(fn.Signature)
+						failing := errSlot >= 0 && neverNilError(c, retResults(ret)[errSlot])
+						if !failing && problem == "" {
+							problem = "the return at " + c.pos(ret.Pos()) + " can leave written text in the buffer: the next token that uses it starts with this token's text"
+						}
+					}
+				}
+				for _, s := range b.Succs {
+					if !reached[s] || (dirty && !dirtyIn[s]) {
+						reached[s] = true
+						if dirty {
+							dirtyIn[s] = true
+						}
+						work = append(work, s)
+					}
+				}
+			}
+			if problem == "" {
+				r.ok(key, c.pos(fn.Pos()), fname(fn), "entered with an empty buffer, every non-failing return leaves it empty (writes are followed by Reset on all such paths)")
+			} else {
+				r.viol(key, c.pos(fn.Pos()), fname(fn), problem)
+			}
+		}
+		// base case
+		r.Instances++
+		key := "buf|" + fieldN + "|base"
+		fresh := true
+		ncalls := 0
+		for _, caller := range allFuncs(c.SLib) {
+			for _, call := range callsTo(caller, c.A.Tokenize) {
+				ncalls++
+				if c.symStr(call.Call.Args[0], 0) != "NewLexer()" {
+					fresh = false
+				}
+			}
+		}
+		resetFirst := false
+		if uses[c.A.Tokenize] {
+			// a Reset in tokenize's entry block before any other use of the buffer
+			for _, in := range c.A.Tokenize.Blocks[0].Instrs {
+				op := bufOp(c.A.Tokenize, in)
+				if op == opReset {
+					resetFirst = true
+					break
+				}
+				if op != opNone {
+					break
+				}
+				if call, ok := in.(*ssa.Call); ok {
+					if sc := staticCallee(call); isLexerMethod(sc) && uses[sc] {
+						break
+					}
+				}
+			}
+		}
+		switch {
+		case ncalls > 0 && fresh:
+			r.ok(key, c.pos(c.A.Tokenize.Pos()), fname(c.A.Tokenize), "every tokenize runs on NewLexer() (a zero buffer)")
+		case resetFirst:
+			r.ok(key, c.pos(c.A.Tokenize.Pos()), fname(c.A.Tokenize), "tokenize resets the buffer before any scanner runs")
+		default:
+			r.viol(key, c.pos(c.A.Tokenize.Pos()), fname(c.A.Tokenize), "tokenize can start with text left in the buffer by an earlier, failed tokenize (the lexer is reused and the buffer is not reset first)")
+		}
+	}
+	return r
+}
